@@ -81,7 +81,11 @@ def run(ctx: Ctx):
     # D2
     rules.rule_enter_sites(ctx, KINDS, "D2")
     rules.rule_transition(ctx, "D2")
-    ctx.attempt(rules.rule_state_lineage, ctx, "D2", rules.step_path_funcs(repo))
+    ops = {"assign_dispatched_vehicle", "unassign_dispatched_vehicle", "modify_vehicle_assignment", "modify_request"}
+    ctx.attempt(rules.rule_state_lineage, ctx, "D2", rules.step_path_funcs(repo), "DU.state-lineage", lambda fn, c: rules.may_reach(repo, fn, c, ops))
+    # a transition that reports success without writing the new activity leaves the vehicle in the old one after its exit
+    # already cleared the record: the request is offered again while the vehicle is still travelling to it
+    ctx.attempt(rules.rule_enter_installs, ctx, "D2")
     # D3 dispatcher filter
     dispatcher_filter(ctx)
     ctx.floor("TS.pairing", 13)
